@@ -185,7 +185,7 @@ func (r *Replayer) runNative(sub string, entries []string, cs []replayCase) (str
 	cf := filepath.Join(r.tmp, sub+"-cases.json")
 	os.WriteFile(cf, cb, 0o644)
 	rel := HarnessDirs[sub]
-	cmd := exec.Command("go", "test", "-vet=off", "-count=1", "-timeout=600s", "-run", "^TestVerifReplay$", "-overlay", ovf, ".")
+	cmd := exec.Command("go", "test", "-v", "-vet=off", "-count=1", "-timeout=600s", "-run", "^TestVerifReplay$", "-overlay", ovf, ".")
 	cmd.Dir = filepath.Join(r.repo, rel)
 	cmd.Env = append(os.Environ(), "GOFLAGS=-mod=mod", "GOPROXY=off", "GOSUMDB=off", "GOTOOLCHAIN=local", "VERIF_REPLAY="+cf)
 	done := make(chan struct{})
